@@ -283,6 +283,18 @@ class UTPM(Ring, RawAlgorithmsMixIn):
         # print 'ybar =', ybar
         tmp = ybar[sl].clone()
         ybar[sl].data[...] = 0.
+        if isinstance(xbar, UTPM) and tmp.data.shape != xbar.data.shape:
+            # x was broadcast into y[sl]: its adjoint is the sum over the
+            # broadcast axes
+            t = tmp.data
+            nd = t.ndim - xbar.data.ndim
+            if nd > 0:
+                t = t.sum(axis=tuple(range(2, 2 + nd)))
+            axes = tuple(i for i in range(2, t.ndim)
+                         if xbar.data.shape[i] == 1 and t.shape[i] != 1)
+            if axes:
+                t = t.sum(axis=axes, keepdims=True)
+            tmp = UTPM(t)
         xbar += tmp
         # print 'funcargs=',funcargs
         # print y[funcargs[0]]
